@@ -3,6 +3,7 @@ import CCT.Model.Keys
 import CCT.Model.Construct
 import CCT.Model.Cli
 import CCT.Model.SignSteps
+import CCT.Model.RootSigning
 import CCT.Ref.Crypto
 import Std.Data.HashMap
 /-!
@@ -406,6 +407,48 @@ def handle (memo : Memo) (line : String) : Memo × String :=
           (memo, rs ++ " opens=" ++ os ++ " file=" ++ (match st.file with | some b => hexStr b | none => "-") ++ " steps=" ++ toString (signPlan file).length)
         | some _, some (_, []), some _ => (memo, "failed:ArgError opens= file=" ++ (if f == "-" then "-" else (match f.toList with | 'x' :: r => String.ofList r | l => String.ofList l)) ++ " steps=0")
         | _, _, _ => (memo, "X bad-args")
+      | _ => (memo, "X bad-args")
+    | "gpg" =>
+      -- gpg <dict|file|via|fetch> <sslib t|f> <other_headers> <signature> <q>  (what the signer returns: strings, anything else = it raises ValueError)  <args…>
+      match args with
+      | fn :: sl :: rest =>
+        match parseVal rest with
+        | some (oh, r1) => match parseVal r1 with
+          | some (sg, r2) => match parseVal r2 with
+            | some (q, r3) =>
+              let G : GpgBackend :=
+                { createSignature := fun _ _ => match oh, sg with | .j (.str a), .j (.str b) => .ok (a, b) | _, _ => .error .arg
+                  exportQ := fun _ => match q with | .j (.str a) => .ok a | _ => .error .arg }
+              let sslib := sl == "t"
+              match fn with
+              | "dict" => match parseVal r3 with
+                | some (e, r4) => match parseVal r4 with
+                  | some (f, []) => (memo, showResJ (signRootMdDictViaGpgV G sslib e f))
+                  | _ => (memo, "X bad-args")
+                | _ => (memo, "X bad-args")
+              | "file" => match r3 with
+                | ft :: r4 =>
+                  let file : Option (Option Bytes) := if ft == "-" then some none else (parseHexBytes (match ft.toList with | 'x' :: r => String.ofList r | l => String.ofList l)).map some
+                  match file, parseVal r4 with
+                  | some fl, some (.j f, []) =>
+                    (match signRootMdFileViaGpg G sslib fl f with
+                     | .ok b => (memo, "B " ++ hexStr b)
+                     | .error e => (memo, "E " ++ e.name))
+                  | some _, some (_, []) => (memo, "E ArgError")
+                  | _, _ => (memo, "X bad-args")
+                | _ => (memo, "X bad-args")
+              | "via" => match parseVal r3 with
+                | some (d, r4) => match parseVal r4 with
+                  | some (f, [inc]) => (memo, showResJ (signViaGpgV G sslib d f (inc == "t")))
+                  | _ => (memo, "X bad-args")
+                | _ => (memo, "X bad-args")
+              | "fetch" => match parseVal r3 with
+                | some (f, []) => (memo, match fetchKeyvalFromGpgV G sslib f with | .ok s => "V s" ++ codesStr s | .error e => "E " ++ e.name)
+                | _ => (memo, "X bad-args")
+              | _ => (memo, "X bad-args")
+            | _ => (memo, "X bad-args")
+          | _ => (memo, "X bad-args")
+        | _ => (memo, "X bad-args")
       | _ => (memo, "X bad-args")
     | "build" =>
       -- build <which> <y m d H M S>x2 <args as a list value, "O99" standing for an omitted optional argument>
